@@ -80,7 +80,7 @@ def gen(rng, quick, with_compressed):
             lines += ["enq " + c07.ev_asdu(e).hex(), "tick"]
         else:
             lines += ["tick"]
-    lines += ["tick 3", "dump"]
+    lines += ["tick 14", "dump"]      # one queued event leaves per round: enough rounds to drain the queue or fill the k-window (12)
     return mode, groups, maxconn, lines
 
 
@@ -321,6 +321,21 @@ def run(ck):
                         bad.append(("not-activated", "c%d not started after its STARTDT act" % pending_act))
                     pending_act = None
                 last_dump = d
+        # each group sees every enqueued event: at the end of the script (fourteen idle rounds after the last command: one queued event leaves per round) the started
+        # connection of a group, with room in its k-window, has left nothing of what was enqueued undelivered to its group
+        if mode in (0, 2) and last_dump and not dirty:
+            for c, (g, st) in last_dump.items():
+                if st != 1 or c not in alive or len(tx_ev.get(c, [])) >= 12:
+                    continue
+                members = [o for o in tx_ev if mode == 0 or (o in grp_of and grp_of[o][0] == g)] if (mode == 0 or c in grp_of) else None
+                if members is None or (mode == 2 and grp_of[c][0] != g):
+                    continue
+                sent_g = {e for o in members for e in tx_ev[o]}
+                missing = [e for e in enq_ids if e not in sent_g]
+                ck.count("group-delivery-judged")
+                if missing:
+                    bad.append(("group-starved", "c%d is the started connection of group %d and has room in its window, but events %s enqueued at the server were never transmitted to any connection of that group (group received %s)" % (
+                        c, g, missing[:6], sorted(sent_g)[:12])))
         for sig, text in bad:
             if sig == "admission:ipv6-compressed":
                 ck.fail("input", "oracle:" + sig, "server admission: " + text, {"script": lines})
